@@ -17,7 +17,10 @@ ID = "C01"
 def cases(tier, seed):
     n = 12000 if tier == "quick" else 1500000
     for k in range(n):
-        yield {"gen": "walk", "k": k}
+        if k % 60 == 59:
+            yield {"gen": "msprime", "k": k}  # larger inputs with many trees (arbitrary doubles, ARG nodes)
+        else:
+            yield {"gen": "walk", "k": k}
     # exhaustive small scope is enumerated after the random cases (thorough only)
     if tier == "thorough":
         for k in range(small_scope_count()):
@@ -28,8 +31,51 @@ def small_scope_count():
     return 0
 
 
+def build_msprime(rng):
+    import msprime
+    from lib.tsk import from_tables
+    n = rng.randint(2, 8)
+    L, rate = rng.choice([(10, 0.05), (10, 0.2), (100, 0.01), (100, 0.03), (1000.0, 0.002)])
+    kw = dict(samples=n, ploidy=rng.choice([1, 2]), sequence_length=L, recombination_rate=rate,
+              random_seed=rng.randint(1, 2 ** 31), discrete_genome=rng.random() < 0.5)
+    if rng.random() < 0.3:
+        kw["model"] = msprime.DiscreteTimeWrightFisher()
+        kw["population_size"] = 10
+    else:
+        kw["population_size"] = 1
+        if rng.random() < 0.5:
+            kw["record_full_arg"] = True
+    if "model" in kw:
+        kw["ploidy"] = 2
+    try:  # msprime is only a workload source here, not the system under test
+        ts = msprime.sim_ancestry(**kw)
+        ts = msprime.sim_mutations(ts, rate=rng.choice([0.01, 0.1]), random_seed=rng.randint(1, 2 ** 31),
+                                   discrete_genome=kw["discrete_genome"])
+    except Exception:  # noqa: BLE001
+        return gen.gen_full(rng, max_nodes=24, max_bp=10)
+    tc = ts.dump_tables()
+    for name in ("nodes", "edges", "sites", "mutations", "individuals", "populations", "migrations"):
+        getattr(tc, name).metadata_schema = tskit.MetadataSchema(None)  # keep the bytes, drop msprime's schemas
+    tc.metadata_schema = tskit.MetadataSchema(None)
+    if rng.random() < 0.5:  # make some internal nodes samples and some leaves non-samples
+        fl = tc.nodes.flags.copy()
+        for _ in range(rng.randint(1, 4)):
+            fl[rng.randrange(len(fl))] ^= 1
+        tc.nodes.flags = fl
+    if rng.random() < 0.3:
+        L = tc.sequence_length
+        tc.delete_intervals([[L * 0.25, L * 0.5]], simplify=False)
+    if tc.edges.num_rows > 400:  # keep the O(nodes x trees) reference affordable
+        return gen.gen_full(rng, max_nodes=24, max_bp=10)
+    m = from_tables(tc)
+    m.tags.add("msprime")
+    return m
+
+
 def build(case):
     rng = case_rng(case)
+    if case.get("gen") == "msprime":
+        return rng, build_msprime(rng)
     big = rng.random() < 0.15
     m = gen.gen_full(rng, max_nodes=24 if big else 9, max_bp=10 if big else 5, max_sites=6)
     return rng, m
